@@ -525,8 +525,12 @@ class NestedFrame(pd.DataFrame):
         kwargs["resolvers"] = tuple(kwargs.get("resolvers", ())) + (_NestResolver(self),)
         kwargs["inplace"] = inplace
         kwargs["parser"] = "nested-pandas"
-        answer = super().eval(expr, **kwargs)
-        self._aliases = None
+        try:
+            answer = super().eval(expr, **kwargs)
+        finally:
+            # also when the evaluation raises: a stale alias table changes how later calls
+            # on this frame parse back-ticked paths
+            self._aliases = None
         return answer
 
     def extract_nest_names(
